@@ -31,6 +31,8 @@ func init() {
 type TermStep struct {
 	Move int `json:"move,omitempty"` // 1, 2: transfer leadership to the member that many places after the current one; 3: back to the member that led first
 	Op   *Op `json:"op,omitempty"`   // Move == 0: an update through the current leader
+	// Move != 0: before the transfer the selected rule records are moved to legacy keys in the cluster's storage
+	Legacy Legacy `json:"legacy"`
 }
 
 type TermsCase struct {
@@ -85,7 +87,7 @@ func genProgram(t *rapid.T) []TermStep {
 		p = append(p, TermStep{Move: rapid.IntRange(1, 2).Draw(t, "further")})
 		updates(0, 2, false)
 	}
-	p = append(p, TermStep{Move: 3})
+	p = append(p, TermStep{Move: 3, Legacy: Legacy{Mask: rapid.IntRange(0, 1023).Draw(t, "legacyMask"), Style: rapid.IntRange(0, 2).Draw(t, "legacyStyle")}})
 	updates(0, 2, false)
 	if rapid.Bool().Draw(t, "again") {
 		p = append(p, TermStep{Move: rapid.IntRange(1, 2).Draw(t, "away2")})
@@ -213,6 +215,9 @@ func runTerms(c TermsCase) (vkit.Info, error) {
 				}
 				if to == cur {
 					continue
+				}
+				if moved := relocate(leader.Svr.GetStorage(), m, st.Legacy, st.Legacy.Style); moved > 0 {
+					info.Class("transfer-with-legacy-keys")
 				}
 				if !move(mc.Nodes[to]) {
 					return inconclusive("transfer-failed")
